@@ -79,7 +79,7 @@ class C04(ParseProp):
         # from the start of ITS first delivered token
         for i in range(300 if tier == 'quick' else 3000):
             t = spangen.random_text(r, ['a', 'b', 'sp', 'sp', 'comma', 'TAB', 'LF'], 14)
-            ops = ['next'] * r.below(3) + (['peek'] if r.chance(2, 3) else []) + [r.choice(['sublex', 'intosub'])] + ['next'] * (1 + r.below(3))
+            ops = ['next'] * r.below(3) + ([r.choice(['peek', 'peek', 'emptyf'])] if r.chance(2, 3) else []) + [r.choice(['sublex', 'intosub'])] + ['next'] * (1 + r.below(3))
             if r.chance(1, 3):
                 ops += ['peek', r.choice(['sublex', 'intosub']), 'next', 'next']
             n += 1
